@@ -562,6 +562,9 @@ func loaderDriver(args []string) error {
 	for _, text := range typeConfusionsStar() {
 		tryText("type-confusion", "BUILD.star", text)
 	}
+	for _, text := range typeConfusionsScript() {
+		tryText("type-confusion", "t.grog.sh", text)
+	}
 	for file, text := range singleEditSeeds {
 		for _, e := range singleEdits(text, thorough) {
 			tryText("single-edit", file, e)
@@ -802,7 +805,30 @@ func typeConfusionsStar() []string {
 	return out
 }
 
+// script targets (*.grog.sh): the annotation block after "# @grog" is YAML in comments
+func typeConfusionsScript() []string {
+	fields := []string{"name", "dependencies", "inputs", "tags", "fingerprint", "platforms", "environment_variables", "timeout", "outputs", "unknown_field"}
+	var out []string
+	for _, f := range fields {
+		for _, m := range confusionMenu {
+			out = append(out, fmt.Sprintf("#!/bin/sh\n# @grog\n# %s: %s\necho hi\n", f, m))
+		}
+		out = append(out, fmt.Sprintf("#!/bin/sh\n# @grog\n# %s:\necho hi\n", f), fmt.Sprintf("#!/bin/sh\n# @grog\n# %s:\n#   -\necho hi\n", f),
+			fmt.Sprintf("#!/bin/sh\n# @grog\n# %s:\n#   ~: ~\necho hi\n", f))
+	}
+	long := strings.Repeat("x", 70000)
+	out = append(out, "", "#!/bin/sh\n", "# @grog", "# @grog\n", "# @grog\n#", "# @grog\n#\n", "# @grog\n# name: a", "# @grog\n# name: a\n", "# @grog\n\n\n", "# @grog\necho\n",
+		"# @grog\n# name: a\n# @grog\n# name: b\necho\n", "# @grog\n# name: a\necho\n# @grog\n# name: b\necho\n", "#@grog\n# name: a\necho\n", "  # @grog  \n  #   name: a\n  echo\n",
+		"# @grog\n# - a\necho\n", "# @grog\n# ~\necho\n", "# @grog\n# []\necho\n", "# @grog\n# x\necho\n", "# @grog\n# name: [\necho\n", "# @grog\n#\tname: a\necho\n",
+		"# @grog\r\n# name: a\r\necho\r\n", "# @grog\n# name: "+long+"\necho\n", "# @grog\n# "+long+"\necho\n", long+"\n# @grog\n# name: a\necho\n", "# @grog\n# name: a/b\necho\n",
+		"# @grog\n# name: \"\"\necho\n", "# @grog\n# name: ..\necho\n", "# @grog\n# dependencies: [\":\"]\necho\n", "# @grog\n# dependencies: [\"//:\"]\necho\n",
+		"# @grog\n# inputs: [\"../x\"]\necho\n", "# @grog\n# inputs: [\"/abs\"]\necho\n", "# @grog\n# timeout: -5s\necho\n", "# @grog\n# timeout: 5 parsecs\necho\n",
+		"# @grog\n# platforms: [\"\"]\necho\n", "\x00\x00\x00", "\xff\xfe# @grog\n# name: a\necho\n")
+	return out
+}
+
 var singleEditSeeds = map[string]string{
+	"t.grog.sh": "#!/bin/sh\n# @grog\n# name: n\n# inputs: [\"a.txt\"]\n# dependencies:\n#   - \":u\"\n# fingerprint: {k: v}\n# timeout: 5s\necho building\n",
 	"BUILD.json": `{"targets":[{"name":"t","command":"x","inputs":["a.txt"],"outputs":["dir::d"],"fingerprint":{"k":"v"},"timeout":"5s"}],"aliases":[{"name":"al","actual":":t"}]}`,
 	"BUILD.yaml": "targets:\n  - name: t\n    command: x\n    inputs: [\"a.txt\"]\n    outputs:\n      - dir::d\n    fingerprint: {k: v}\n    timeout: 5s\naliases:\n  - name: al\n    actual: \":t\"\n",
 	"BUILD.star": "target(\n    name = \"t\",\n    command = \"x\",\n    inputs = [\"a.txt\"],\n    fingerprint = {\"k\": \"v\"},\n    timeout = \"5s\",\n)\nalias(name = \"al\", actual = \":t\")\n",
